@@ -57,6 +57,9 @@ def own_error_forms():
             "(mapcar (lambda (a)) '(1 2 3))", "(progn (defmacro ms (a b)) (ms 1 2))", "(progn (defun stub (a) \"doc only\") (stub 5))", "(progn (defun stub (a) (declare (x))) (stub 5))",
             "(seq-reduce (lambda (a b)) '(1 2) 0)", "(sort (list 2 1) (lambda (a b)))", "(progn (defun stub (&rest c)) (stub 1 2))", "(progn (defun stub (&optional a)) (stub))",
             "(funcall (lambda (a)) (car 5))", "(progn (defun stub (a b)) (stub 1))", "(let ((a 'outer)) (funcall (lambda (a)) 1) a)", "(progn (defun stub (a)) (stub 1) (stub 2) (boundp 'a))"]
+    out += ["(progn (defun rp (a b a) b) (rp 1 2 3))", "(funcall (lambda (a &optional a) a) 1)", "(funcall (lambda (a &optional a) a) 1 2)", "(funcall (lambda (b &rest b) b) 1 2 3)",
+            "(progn (defmacro rpm (c c) (list 'quote c)) (rpm 1 2))", "(progn (defun rp (a a) (car 5)) (rp 1 2))", "(mapcar (lambda (a a)) '(1))", "(progn (defun rp (a b a b) (list a b)) (rp 1 2 3 4) (rp 5 6 7 8))",
+            "(let ((a 'outer)) (funcall (lambda (a a a) a) 1 2 3) a)"]
     out += ["(dotimes (a) 1)", "(dotimes a 1)", "(dotimes (a 2 3 4) 1)", "(dotimes (a 2 . 3) 1)", "(dotimes (a . 2) 1)", "(dotimes)",
             "(dolist (a) 1)", "(dolist a 1)", "(dolist (a '(1) 3 4) 1)", "(dolist (a '(1) . 3) 1)", "(dolist (a . 2) 1)", "(dolist)",
             "(dotimes (a 2) . 5)", "(dolist (a '(1 2)) . 5)", "(let ((a 1)) . 5)", "(let* ((a 1)) . 5)", "(let ((a 1) . 5) 1)",
